@@ -283,12 +283,14 @@ PROPS["C14"] = {
     "race": True,
     "budget_s": {"quick": 90, "thorough": 2700},
     "modes": [{"name": "", "runs": {"quick": 5000, "thorough": 100000}, "chunk": 250},
+              {"name": "handlers", "runs": {"quick": 2500, "thorough": 60000}, "chunk": 250},
               {"name": "race", "runs": {"quick": 70, "thorough": 2000}, "chunk": 5, "race": True}],
     "rule": ("mode '' (tier E): one run = a fixed generated store and configuration whose single-request answer cannot depend on the schedule (rewrite-free or ||-only, limits non-binding) and 2-6 requests (check, batch check of 2-4 tuples, expand, list) started together in one synctest bubble; "
              "4 (quick) / 12 (thorough) tape-chosen interleavings of ALL their storage calls; every concurrent result must equal the result of the same request run alone. "
+             "mode 'handlers' (tier E): the requests are REST requests through the real check / expand / list handlers (on the L1-wrapped dependencies, private routers) inside the bubble, among them 2-3 checks of the SAME tuple with different max-depth values on a chain where depth decides; every (status, body) must equal the one obtained alone. "
              "mode 'race' (-race build, GOMAXPROCS=1): a FRESH registry per run (no member warmed up) receives a burst of 3-8 concurrent read and write requests through the real routers and gRPC servers; the race detector works on happens-before, so unordered accesses are flagged without real parallelism; "
              "a report halts the worker and is confirmed in a fresh process. non-trivial = the request set mixes at least two kinds (race: every burst); distinct = hash of (config, tuples, requests)."),
-    "probes": ["probe_requests_interleaved", "kind_check", "kind_batch", "kind_expand", "kind_list", "concurrent_requests"],
+    "probes": ["probe_requests_interleaved", "kind_check", "kind_batch", "kind_expand", "kind_list", "concurrent_requests", "probe_shared_group_gadget", "probe_duplicate_requests", "stragglers_completed_late", "probe_depth_decides", "handler_requests"],
     "real": REAL_E + ["race mode: real routers, gRPC servers over bufconn, freshly constructed registry, Go race detector"], "stub": STUB_E,
     "fault_kinds": {},
     "assumptions": ["the race clause is the weakest part: incidental mutex edges can hide a race in one order; absence of a report is weak evidence", "single-request answers are schedule-independent for the generated configurations (no && / !)"],
